@@ -213,7 +213,14 @@ def truth(v):
             return None
         return v.n > 0
     if isinstance(v, (AObj,)):
-        return None
+        if v.cnode is None:
+            return True       # a plain object is truthy
+        for b in ast.walk(v.cnode):
+            if isinstance(b, ast.FunctionDef) and b.name in ("__bool__", "__len__", "__nonzero__"):
+                return None
+        if v.cnode.bases and not all(isinstance(x, ast.Name) and x.id == "object" for x in v.cnode.bases):
+            return None
+        return True
     if isinstance(v, (AFunc, AClass, AMod, ABuiltin, AFfi, AExc)):
         return True
     if isinstance(v, (tuple, list, dict, set)):
